@@ -32,7 +32,16 @@ async fn run_cell(c: Cell) -> Result<(usize, bool), String> {
   x.bind("tcp://127.0.0.1:0").await.map_err(|e| e.to_string())?;
   let ep = String::from_utf8(x.get_option(o::LAST_ENDPOINT).await.map_err(|e| e.to_string())?).unwrap();
   let addr = ep.trim_start_matches("tcp://").to_string();
+  let peer_done = std::sync::Arc::new(std::sync::atomic::AtomicBool::new(false));
+  let peer_done2 = peer_done.clone();
   let th = std::thread::spawn(move || -> Result<(), String> {
+    struct Done(std::sync::Arc<std::sync::atomic::AtomicBool>);
+    impl Drop for Done {
+      fn drop(&mut self) {
+        self.0.store(true, std::sync::atomic::Ordering::SeqCst);
+      }
+    }
+    let _done = Done(peer_done2);
     let mut s = std::net::TcpStream::connect(&addr).map_err(|e| e.to_string())?;
     s.set_nodelay(true).ok();
     let mut bytes = v3_greeting("NULL", false);
@@ -45,6 +54,8 @@ async fn run_cell(c: Cell) -> Result<(usize, bool), String> {
     // a well-behaved peer: it consumes what the socket sends (greeting, READY), otherwise closing
     // with unread data would reset the connection and legitimately destroy data in flight
     let mut rd = s.try_clone().map_err(|e| e.to_string())?;
+    let seen = std::sync::Arc::new(std::sync::atomic::AtomicUsize::new(0));
+    let seen2 = seen.clone();
     let reader = std::thread::spawn(move || {
       use std::io::Read;
       let mut buf = [0u8; 4096];
@@ -52,11 +63,17 @@ async fn run_cell(c: Cell) -> Result<(usize, bool), String> {
         if n == 0 {
           break;
         }
+        seen2.fetch_add(n, std::sync::atomic::Ordering::SeqCst);
       }
     });
     s.write_all(&bytes).map_err(|e| e.to_string())?;
-    // make sure the socket's own handshake bytes have been consumed before closing
-    std::thread::sleep(Duration::from_millis(3));
+    // a peer that closes before the socket has even sent its greeting and READY would answer them
+    // with a RST, which legitimately destroys the data still unread on the socket's side: wait (up
+    // to 30 s on a loaded machine) until the socket's handshake (64 + 28 bytes) has been consumed
+    let t_hs = std::time::Instant::now();
+    while seen.load(std::sync::atomic::Ordering::SeqCst) < 92 && t_hs.elapsed() < Duration::from_secs(30) {
+      std::thread::sleep(Duration::from_millis(2));
+    }
     if c.pause_ms > 0 {
       std::thread::sleep(Duration::from_millis(c.pause_ms));
     }
@@ -78,7 +95,10 @@ async fn run_cell(c: Cell) -> Result<(usize, bool), String> {
   let mut got = 0usize;
   let mut in_order = true;
   let mut idle = 0;
-  while got < c.n && idle < 5 {
+  let t_start = std::time::Instant::now();
+  // idle time only counts once the peer has finished writing and closing (a loaded machine may take
+  // seconds to get that far); hard stop after 45 s
+  while got < c.n && idle < 5 && t_start.elapsed() < Duration::from_secs(45) {
     match x.recv().await {
       Ok(m) => {
         idle = 0;
@@ -91,7 +111,11 @@ async fn run_cell(c: Cell) -> Result<(usize, bool), String> {
         }
         got += 1;
       }
-      Err(_) => idle += 1,
+      Err(_) => {
+        if peer_done.load(std::sync::atomic::Ordering::SeqCst) {
+          idle += 1;
+        }
+      }
     }
   }
   let _ = tokio::task::spawn_blocking(move || th.join()).await;
@@ -111,8 +135,8 @@ pub fn fin_sub(tier: Tier) -> Sub {
     }
   }
   sub.bounds = json!({"cells": list.len(), "shapes": ["50 x 4 KiB", "400 x 1000 B", "3 x 70 kB"], "endings": ["close at once", "half-close", "close after 30 ms"]});
-  sub.notes.push("E4 cells are real-clock executions: the matrix is enumerated completely, the schedules inside a cell are not; repetitions exist because the window is timing dependent".into());
-  par::enumerate(&mut sub, list.len(), |i| {
+  sub.notes.push("a violation in a real-clock cell is reported only if it shows again when the cell is executed a second time; E4 cells are real-clock executions: the matrix is enumerated completely, the schedules inside a cell are not; repetitions exist because the window is timing dependent".into());
+  par::enumerate(&mut sub, list.len(), |i| par::confirmed(|| {
     let c = list[i];
     let rt = tokio::runtime::Builder::new_multi_thread().worker_threads(2).enable_all().build().expect("runtime");
     let r = rt.block_on(async move { tokio::time::timeout(Duration::from_secs(60), run_cell(c)).await });
@@ -135,7 +159,7 @@ pub fn fin_sub(tier: Tier) -> Sub {
       }
     }
     case
-  });
+  }));
   sub
 }
 
